@@ -71,9 +71,19 @@ def returns(ctx):
     elif regime == 1:
         ctx.assume(sand(*[(v[i + 1] <= v[i] * 0.97) if i % 2 else (v[i + 1] >= v[i] * (1.02 + 0.01 * i)) for i in range(n - 1)]))
     s = _series(ctx, v)
-    rr = c.return_rate_series(s)
-    rm = c.return_multiple(s)
     ctx.outcome("computed")
+    if not ctx.sym:
+        _witness_int_series(ctx, v, dur)
+    try:
+        rr = c.return_rate_series(s)
+        rm = c.return_multiple(s)
+    except TypeError as e:
+        if ctx.sym and ("ufunc" in str(e) or "numpy" in str(e).lower()):
+            # the code now runs a numpy kernel on the series: no proxy can enter it. Not solver-decided on this tree; the concrete
+            # witness run of this path (float and integer-dtype series) decides what it can.
+            ctx.note(f"return series computed by a numpy kernel ({e}); witness-only on this tree")
+            return
+        raise
     ctx.check("return series starts at 0", rr.iloc[0] == 0)
     ctx.check("return multiple starts at 1", rm.iloc[0] == 1)
     for t in range(1, n):
@@ -144,6 +154,28 @@ def volatility_rule(ctx):
     else:
         ctx.check("volatility == std of returns x sqrt(365 / sampling interval in days), for every interval", abs(vol - sd * math.sqrt(365 / interval)) <= 1e-9 * max(1.0, abs(vol)))
     ctx.check("CANARY volatility ignores the interval", ctx.close(vol * vol, sd * sd * 365, rel=1e-9, abs_=1e-18) if ctx.sym else abs(vol - sd * math.sqrt(365)) <= 1e-12)
+
+
+def _witness_int_series(ctx, v, dur):
+    """NOT solver-decided: the return functions on an integer-dtype net-value series (numpy dtype rules are outside the proxies)"""
+    import pandas as pd
+    import demeter.result.metrics.calculator as c
+
+    ints = [int(float(x) * 1000) + 1 for x in v]
+    si = pd.Series(ints, index=pd.date_range("2023-01-01", periods=len(ints), freq="D"), dtype="int64")
+    ok = True
+    try:
+        rm = c.return_multiple(si)
+        rr = c.return_rate_series(si)
+        for t in range(1, len(ints)):
+            ok = ok and abs(float(rm.iloc[t]) - ints[t] / ints[t - 1]) <= 1e-9 * max(1.0, ints[t] / ints[t - 1])
+            ok = ok and abs(float(rr.iloc[t]) - (ints[t] - ints[t - 1]) / ints[t - 1]) <= 1e-9
+        a_if = c.annualized_return(float(dur), ints[0], ints[-1])
+        a_nv = c.annualized_return(float(dur), net_values=si)
+        ok = ok and abs(float(a_nv) - float(a_if)) <= 1e-7 * max(1.0, abs(float(a_if)))
+    except Exception:
+        ok = False
+    ctx.check("WITNESS integer-dtype net-value series: return multiple / return series / annualised return match recomputation", ok)
 
 
 def _witness_stats(ctx, v, dur):
